@@ -287,6 +287,22 @@ def operator_oracle(ctx, rng):
         if not np.array_equal(got, a ** k):
             ctx.fail(f'jdf-operator:__pow__:{k}', 'JaxDiscreteField.__pow__ is not the power of the values',
                      {'exponent': k, 'field_value': a.tolist(), 'got': got.tolist(), 'expected': (a ** k).tolist()})
+    if hasattr(JaxDiscreteField, '__rpow__'):
+        e = rng.integers(-3, 4, size=(2, 3)).astype(float)
+        ue = JaxDiscreteField(value=jnp.asarray(e))
+        base = rng.integers(1, 5, size=(2, 3)).astype(float)
+        for kind, b_np, b in (('float', 2., 2.), ('array', base, jnp.asarray(base))):
+            try:
+                got = np.asarray(b ** ue, dtype=float)
+            except Exception as ex:  # noqa: BLE001
+                ctx.fail(f'jdf-operator:__rpow__:{kind}', f'{kind} ** JaxDiscreteField raises {type(ex).__name__}: {ex}', {'exponent_field': e.tolist()})
+                continue
+            exp = np.power(b_np, e)
+            ctx.count(('jdf-rpow', kind, e.tolist(), np.asarray(b_np).tolist()))
+            ctx.hist('field_operator', '__rpow__')
+            if got.shape != exp.shape or not np.allclose(got, exp, rtol=1e-13, atol=0):
+                ctx.fail(f'jdf-operator:__rpow__:{kind}', 'c ** field is not c ** values (NumPy power)',
+                         {'base': np.asarray(b_np).tolist(), 'exponent_field': e.tolist(), 'got': got.tolist(), 'expected': exp.tolist()})
     if hasattr(JaxDiscreteField, '__neg__'):
         if not np.array_equal(np.asarray(-u, dtype=float), -a):
             ctx.fail('jdf-operator:__neg__', 'JaxDiscreteField.__neg__ is not the negated values', {'field_value': a.tolist()})
